@@ -262,7 +262,14 @@ def worker(task, col):
     for i in range(task['lo'], task['hi']):
         rnd = gen.rng_for('C09', task['seed'], i)
         r = rnd.random()
-        if r < .5:
+        if r < .12:
+            # consecutive degree ranges up to 3 and 4 (repeatable pairs that can carry three parallel connections)
+            cs = gen.gen_settings(rnd, n_src=(1, 2), n_tgt=(1, 2), p_patterns=.8, p_parallel=0., p_excl=.2,
+                                  alphabet=[{'min': 0, 'max': 3}, {'min': 1, 'max': 3}, {'list': [0, 1, 2, 3]},
+                                            {'min': 0, 'max': 4}, {'list': [0, 1]}, {'list': [1, 2]}, {'min': 1}])
+            for nd in cs['src'] + cs['tgt']:
+                nd['rep'] = nd['rep'] or rnd.random() < .6
+        elif r < .5:
             cs = gen.gen_settings(rnd, alphabet=gen.DEG_ALPHABET)
         elif r < .8:
             cs = gen.gen_settings(rnd, n_src=(2, 3), n_tgt=(2, 3), p_override=.5, p_patterns=.8)
